@@ -4,6 +4,13 @@
 static BUFR_Message *wm = NULL;   /* message being written */
 static BUFR_Message *rm = NULL;   /* message being read */
 
+void bits_reset(void)
+   {
+   if (wm) bufr_free_message(wm);
+   if (rm) bufr_free_message(rm);
+   wm = rm = NULL;
+   }
+
 static void fmt_w(void)
    {
    fprintf(bvp_out, "%u %u %u", wm->s4.filled, (unsigned)wm->s4.bitno, wm->s4.max_data_len);
